@@ -74,6 +74,13 @@ package otto
 // value_number.go
 // ---------------------------------------------------------------------------
 
+// (*object).call and DefaultValue return values produced by the evaluator; that every
+// such value is a well-formed language value is the evaluator's global invariant and is
+// TRUSTED here (listed in the evidence), not proved.
+//@ func (*object).DefaultValue
+//@   trusted
+//@   ensures jsValue(result) && result.kind != valueObject
+
 //@ func (Value).float64
 //@   props C05
 //@   requires jsValue(v)
@@ -82,23 +89,25 @@ package otto
 //@   ensures v.kind == valueNull ==> result == 0.0 && !signbit(result)
 //@   ensures is(v.value, bool) && v.kind == valueBoolean ==> result == ite(v.value.(bool), 1.0, 0.0)
 
+//@ func float64ToUint32
+//@   props C05
+//@   requires isFinite(f)
+//@   ensures result == es5ToUint32(float64bits(f))
+
 //@ func toInt32
 //@   props C05
 //@   requires jsValue(value)
 //@   ensures isGoNumber(value) ==> result == es5ToInt32(float64bits(numOf(value)))
-//@   region fabs(numOf(value)) >= 9223372036854775808.0
 
 //@ func toUint32
 //@   props C05
 //@   requires jsValue(value)
 //@   ensures isGoNumber(value) ==> result == es5ToUint32(float64bits(numOf(value)))
-//@   region fabs(numOf(value)) >= 9223372036854775808.0
 
 //@ func toUint16
 //@   props C05
 //@   requires jsValue(value)
 //@   ensures isGoNumber(value) ==> result == es5ToUint16(float64bits(numOf(value)))
-//@   region fabs(numOf(value)) >= 9223372036854775808.0
 
 //@ func toIntegerFloat
 //@   props C05
